@@ -3,6 +3,7 @@ package main
 import (
 	"fmt"
 	"os"
+	"runtime/pprof"
 	"sort"
 	"strconv"
 	"strings"
@@ -27,6 +28,15 @@ func main() {
 	root := os.Getenv("VERIF_ROOT")
 	if root == "" {
 		root = "/verif"
+	}
+	if f := os.Getenv("VERIF_HEAPPROF"); f != "" { // debugging aid: heap profile after two minutes
+		go func() {
+			time.Sleep(120 * time.Second)
+			if out, err := os.Create(f); err == nil {
+				pprof.WriteHeapProfile(out)
+				out.Close()
+			}
+		}()
 	}
 	switch os.Args[1] {
 	case "list":
